@@ -59,21 +59,42 @@ func (f *factory) New(a, b gopacket.Flow) tcpassembly.Stream {
 	return discard{} // late duplicates after the close: not the stream under test
 }
 
-func runC20(c *sim.Ctx, real bool) {
-	loss := c.Chance(500)
-	nb := c.Weighted(1, 3, 3, 2, 1)
-	if real {
-		nb = 0
-	}
-	var plan *tcpsim.Plan
-	if real {
-		plan = tcpsim.Generate(c, tcpsim.GenCfg{MaxConns: 1, AllowRST: true, AllowNoEnd: true, Short: true})
-	}
-	var batches [][]tcpassembly.Reassembly
-	var elems []*elem
-	total := 0
-	for b := 0; b < nb; b++ {
+// edesc describes one delivered element of a script: n bytes behind a gap of skip.
+type edesc struct{ n, skip int }
+
+// c20cfg is everything one execution in a bubble depends on.
+type c20cfg struct {
+	loss       bool
+	script     [][]edesc
+	closeAfter int // number of consumer steps before Close; -1 = read to EOF
+	closeTwice bool
+	pickAsm    func() bool // who moves when both sides can
+	size       func() int  // buffer size of the next Read
+	real       bool
+	plan       *tcpsim.Plan
+}
+
+func materialize(script [][]edesc) (batches [][]tcpassembly.Reassembly, elems []*elem, total int) {
+	for b, bd := range script {
 		var batch []tcpassembly.Reassembly
+		for k, e := range bd {
+			d := make([]byte, e.n)
+			for i := range d {
+				d[i] = byte(total + i + 1)
+			}
+			total += e.n
+			batch = append(batch, tcpassembly.Reassembly{Bytes: append([]byte(nil), d...), Skip: e.skip, Start: len(elems) == 0, End: b == len(script)-1 && k == len(bd)-1})
+			elems = append(elems, &elem{skip: e.skip, data: d, batch: b})
+		}
+		batches = append(batches, batch)
+	}
+	return
+}
+
+func drawScript(c *sim.Ctx, nb int, maxBytes int) (script [][]edesc) {
+	first := true
+	for b := 0; b < nb; b++ {
+		var batch []edesc
 		for k := c.Weighted(1, 4, 2, 1); k > 0; k-- {
 			n := 0
 			switch c.Weighted(2, 4, 2) {
@@ -82,21 +103,19 @@ func runC20(c *sim.Ctx, real bool) {
 			case 2:
 				n = 1 + c.Draw(80)
 			}
-			d := make([]byte, n)
-			for i := range d {
-				d[i] = byte(total + i + 1)
+			if maxBytes > 0 && n > maxBytes {
+				n = 1 + n%maxBytes
 			}
-			total += n
 			skip := 0
 			if c.Chance(200) {
 				skip = 1 + c.Draw(100)
-				if len(elems) == 0 && c.Draw(2) == 1 {
+				if first && c.Draw(2) == 1 {
 					skip = -1
 				}
 				c.Fault("gap_in_delivery")
 			}
-			batch = append(batch, tcpassembly.Reassembly{Bytes: append([]byte(nil), d...), Skip: skip, Start: len(elems) == 0, End: b == nb-1 && k == 1})
-			elems = append(elems, &elem{skip: skip, data: d, batch: b})
+			first = false
+			batch = append(batch, edesc{n, skip})
 			if n == 0 {
 				c.Fault("empty_slice_delivered")
 			}
@@ -104,15 +123,70 @@ func runC20(c *sim.Ctx, real bool) {
 		if len(batch) == 0 {
 			c.Fault("empty_batch")
 		}
-		batches = append(batches, batch)
+		script = append(script, batch)
 	}
-	// consumer plan
-	closeAfter := -1 // number of consumer steps before Close; -1 = read to EOF
+	return
+}
+
+func runC20(c *sim.Ctx, real bool) {
+	cfg := c20cfg{real: real}
+	cfg.loss = c.Chance(500)
+	nb := c.Weighted(1, 3, 3, 2, 1)
+	if real {
+		nb = 0
+		cfg.plan = tcpsim.Generate(c, tcpsim.GenCfg{MaxConns: 1, AllowRST: true, AllowNoEnd: true, Short: true})
+	}
+	cfg.script = drawScript(c, nb, 0)
+	cfg.closeAfter = -1
 	if c.Chance(500) {
-		closeAfter = c.Draw(12)
+		cfg.closeAfter = c.Draw(12)
 		c.Fault("close_before_eof")
 	}
-	closeTwice := c.Chance(200)
+	cfg.closeTwice = c.Chance(200)
+	cfg.pickAsm = func() bool { return c.Draw(2) == 0 }
+	cfg.size = func() int { return []int{1, 2, 3, 7, 64, 0, 1500}[c.Weighted(3, 2, 2, 2, 4, 1, 1)] }
+	execC20(c, cfg)
+}
+
+// simC20sweep is the crash-point enumeration for the reader: one seeded small
+// script (at most 3 batches, elements of at most 8 bytes), one seeded
+// read-size sequence over {1, 2, 64} and one seeded schedule are fixed, and
+// then Close is placed at EVERY consumer step - before the first read, after
+// each read, after EOF - each placement executed in a fresh bubble.
+func simC20sweep(c *sim.Ctx) {
+	cfg := c20cfg{}
+	cfg.loss = c.Chance(500)
+	cfg.script = drawScript(c, c.Weighted(1, 3, 3, 2), 8)
+	cfg.closeTwice = c.Chance(200)
+	sizes := make([]int, 24)
+	for i := range sizes {
+		sizes[i] = []int{1, 2, 64}[c.Draw(3)]
+	}
+	sched := make([]bool, 64)
+	for i := range sched {
+		sched[i] = c.Draw(2) == 0
+	}
+	run := func(closeAfter int) int {
+		si, pi := 0, 0
+		cfg.closeAfter = closeAfter
+		cfg.pickAsm = func() bool { pi++; return sched[(pi-1)%len(sched)] }
+		cfg.size = func() int { si++; return sizes[(si-1)%len(sizes)] }
+		return execC20(c, cfg)
+	}
+	n := run(-1) // read to EOF: counts the consumer steps there are
+	for k := 0; k <= n+1; k++ {
+		c.Fault("close_before_eof")
+		run(k)
+	}
+	c.Probe("close_point_sweep")
+}
+
+// execC20 runs one configuration in a fresh bubble and returns the number of
+// consumer steps (reads and the close) that were made.
+func execC20(c *sim.Ctx, cfg c20cfg) (consumerSteps int) {
+	loss, real, plan, closeAfter, closeTwice := cfg.loss, cfg.real, cfg.plan, cfg.closeAfter, cfg.closeTwice
+	batches, elems, total := materialize(cfg.script)
+	nb := len(batches)
 	c.Ev("script", int64(nb), int64(len(elems)), int64(total), b2i(loss), int64(closeAfter))
 
 	bubble.Run(c, func(b *bubble.B) {
@@ -290,7 +364,7 @@ func runC20(c *sim.Ctx, real bool) {
 			if !asmCan && !conCan {
 				break
 			}
-			pickAsm := asmCan && (!conCan || c.Draw(2) == 0)
+			pickAsm := asmCan && (!conCan || cfg.pickAsm())
 			if pickAsm && asm.Yielded() {
 				c.Ev("resume_assembler", int64(asm.Site))
 				b.Resume(asm)
@@ -352,7 +426,7 @@ func runC20(c *sim.Ctx, real bool) {
 				conDone = true
 				continue
 			}
-			size := []int{1, 2, 3, 7, 64, 0, 1500}[c.Weighted(3, 2, 2, 2, 4, 1, 1)]
+			size := cfg.size()
 			c.Ev("read", int64(size))
 			conSteps++
 			b.Step(con, func() { readOnce(size) })
@@ -389,7 +463,9 @@ func runC20(c *sim.Ctx, real bool) {
 			c.Probe("closed_early")
 
 		}
+		consumerSteps = conSteps
 	})
+	return
 }
 
 func consumerState(closed, atGate bool) string {
@@ -409,7 +485,7 @@ func b2i(b bool) int64 {
 	return 0
 }
 
-var sims = map[string]sim.SimFunc{"c20": simC20, "c20asm": simC20asm}
+var sims = map[string]sim.SimFunc{"c20": simC20, "c20asm": simC20asm, "c20sweep": simC20sweep}
 
 func TestChild(t *testing.T) {
 	bubble.T = t
